@@ -17,6 +17,8 @@ from props.common import U, is_rejection, recording
 ID = "C14"
 FN = "segment_clip"
 RULE = (
+    "[environment] one block discovers, in a child interpreter with a recording os.environ, every environment variable the library's own source looks up "
+    "while segmenting, and re-runs a workload with each of them unset / set to a perturbing value: identifiers and bounds must not move. "
     "full product: clip start x clip length (0 included) x duration x hop (None included) x include_incomplete, "
     "all dyadic, each on a real-time recording and on a x10 time-expanded one and with duration/hop passed as Python float, numpy float64 and (whole numbers) Python int / numpy int64; plus, for every start/length/flag, every (duration, hop) pair in which at least one of the two is "
     "non-positive. Per valid case four calls: the call under test, the same call again, the same call on a parent "
@@ -101,7 +103,33 @@ def pairs(tier):
 
 def blocks(tier):
     n = min(NBLOCKS[tier], len(pairs(tier)))
-    return [{"tier": tier, "k": k, "of": n} for k in range(n)]
+    return [{"tier": tier, "k": k, "of": n} for k in range(n)] + [{"tier": tier, "space": "environment"}]
+
+
+def env_workload():
+    """Segment identifiers and bounds of a few calls (executed in a child interpreter by mc.envprobe)."""
+    res = []
+    for (s, L, d, h, incl) in ((0.0, 3.0, 1.0, 0.5, True), (2.5, 6.0, 2.0, None, False), (1.0, 0.5, 1.0, 1.0, True)):
+        clip = data.Clip(uuid=U("c14:clip:a"), recording=rec_(1.0), start_time=s, end_time=s + L)
+        res.append([[str(c.uuid), c.start_time, c.end_time] for c in segment_clip(clip, d, h, incl)])
+    return res
+
+
+def run_environment(case):
+    """Identifiers are a function of the parent identifier and the bounds: every environment variable the library's own code
+    looks up while segmenting is set to a perturbing value in a fresh process; the identifiers must not move."""
+    from mc import envprobe
+    out = Out(case)
+    reads, diffs = envprobe.probe("c14")
+    out.transitions = out.validated = 1 + 2 * len(diffs)
+    out.nontrivial = bool(diffs)
+    if not diffs:
+        out.ok("ids_independent_of_environment")
+    for key, a, b in diffs:
+        out.expect("ids_independent_of_environment", a == b, {"variable": key, "read_in": reads[key]}, "same identifiers and bounds",
+                   _cls("environment_variable", variable=key))
+    out.klass = "environment:%d_variables_read" % len(diffs)
+    return out
 
 
 def cases_of(tier, s, L):
@@ -137,6 +165,9 @@ def cases_of(tier, s, L):
 
 
 def run_block(block, rec):
+    if block.get("space") == "environment":
+        rec.add(run_environment({"space": "environment"}))
+        return
     tier = block["tier"]
     for s, L in pairs(tier)[block["k"]::block["of"]]:
         for case in cases_of(tier, s, L):
@@ -195,6 +226,8 @@ def _cls(kind, **kw):
 
 
 def run_case(case):
+    if case.get("space") == "environment":
+        return run_environment(case)
     out = Out(case)
     s, L, d, h, incl = case["s"], case["L"], case["d"], case["h"], bool(case["incl"])
     e = s + L
